@@ -27,6 +27,7 @@ def main(argv):
         with open(desc_path) as f:
             desc = json.load(f)
         if desc.get('replay'):
+            ctx.replaying = True
             mod.replay(desc['case'], ctx)
         else:
             mod.run_shard(desc, ctx)
